@@ -29,7 +29,7 @@ def _m(world, level, runs, budget, rule, simtime_unit, distinct, real, stub, ass
         components={"real": real, "stub": stub},
         assumptions=assumptions,
         faults_not_applicable=NOT_APPLICABLE_FAULTS,
-        run_cap_s=180,
+        run_cap_s=900,
         shrink_tests=30,
         shrink_s=75,
     )
@@ -143,7 +143,7 @@ META = {
             "nodes outside a targeted update's ancestor closure are not required to stay outdated",
             "_model_* totals and hidden constant nodes are recomputed from scratch through their own function on reference inputs",
         ],
-        run_cap_s=120, shrink_tests=500, shrink_s=60,
+        run_cap_s=900, shrink_tests=500, shrink_s=60,
     ),
     "C17": _m(
         "M", "exploration", (600, 12000), (420, 5400),
@@ -161,7 +161,7 @@ META = {
             "ancestral clause is decided only for the generated tight links (|draw - loc at new ancestors| <= 8e-3 + float32 slack; a correct draw violates it with probability < 2e-15)",
             "PRNG-key-to-distribution assignment is liesel-internal, so draws are compared between twins, not against an independent sampler",
         ],
-        run_cap_s=120, shrink_tests=300, shrink_s=60,
+        run_cap_s=900, shrink_tests=300, shrink_s=60,
     ),
     "C15": _m(
         "M", "exploration", (500, 60000), (420, 5400),
@@ -181,7 +181,7 @@ META = {
             "any exception counts as rejection of an invalid graph / a mutate attempt; the structural digest (inputs, names, flags, functions, dist, at, groups) must be unchanged",
             "no torn/short-write faults on the dill file: no property states a durability contract",
         ],
-        run_cap_s=120, shrink_tests=300, shrink_s=60,
+        run_cap_s=900, shrink_tests=300, shrink_s=60,
     ),
     "C02": _m(
         "M", "exploration", (800, 40000), (420, 5400),
@@ -200,7 +200,7 @@ META = {
             "tolerance |diff| <= 1e-4 * (1 + sum |terms|): float32 accumulation vs float64 reference; generated values keep every term O(10)",
             "every 8th run is a DistRegBuilder model (Normal response, loc / scale predictors, p- and np-smooths with full- and deficient-rank penalties): totals compared with a float64 reference incl. the degenerate-normal prior on the range space of the penalty",
         ],
-        run_cap_s=120, shrink_tests=300, shrink_s=60,
+        run_cap_s=900, shrink_tests=300, shrink_s=60,
     ),
     "C14": _m(
         "M", "exploration", (600, 40000), (420, 5400),
@@ -220,7 +220,7 @@ META = {
             "b and log|b'| are float64 closed forms written in /verif for explicit bijectors; for 'the default' they come from TFP itself (numpy substrate)",
             "original value 'unchanged' up to the float32 round trip b(b^-1(x)) (rtol 2e-5)",
         ],
-        run_cap_s=120, shrink_tests=300, shrink_s=60,
+        run_cap_s=900, shrink_tests=300, shrink_s=60,
     ),
     "C03": _m(
         "I", "exploration", (240, 10000), (420, 5400),
@@ -240,7 +240,7 @@ META = {
             "input states are always up to date (documented precondition of update_state)",
             "F1 is injected into eager calls only; after a failed call the next calls must satisfy all laws unchanged",
         ],
-        run_cap_s=240, shrink_tests=60, shrink_s=90,
+        run_cap_s=900, shrink_tests=60, shrink_s=90,
     ),
     "C20": _m(
         "O", "exploration", (96, 4000), (420, 5400),
@@ -260,7 +260,7 @@ META = {
             "'exhaustively over small alphabets' (the property's quantifier) is model checking and is not done; histories are sampled",
             "batch coverage: P(false alarm) <= n (r/n)^T < 1e-12 for the generated (n, batch, T); batch_seed is always passed; stderr (tqdm) is discarded",
         ],
-        run_cap_s=300, shrink_tests=40, shrink_s=120,
+        run_cap_s=900, shrink_tests=40, shrink_s=120,
     ),
     "C05": _m(
         "E", "fault_enumeration", (64, 5000), (420, 5400),
@@ -280,7 +280,7 @@ META = {
             "for 0 < alpha < 1 the clause 'accepted only if the draw lies below alpha' is judged by the acceptance frequency over 2048 independent keys (Hoeffding bound, false-alarm probability <= 1e-12 per case): which uniform draw an implementation uses is not prescribed, so a pathwise comparison with jax.random.uniform(key) would flag the equivalent rule 1 - u <= alpha",
             "in engine runs 'accepted' is read off position_moved and cross-checked against the stored positions",
         ],
-        run_cap_s=300, shrink_tests=40, shrink_s=120,
+        run_cap_s=900, shrink_tests=40, shrink_s=120,
     ),
     "C12": _m(
         "E", "exploration", (24, 1000), (600, 5400),
@@ -297,7 +297,7 @@ META = {
             "the reference is the float64 (co)variance (ddof=1) of the epoch's recorded positions of the kernel's own keys + 1e-3 on the diagonal, in jax.flatten_util.ravel_pytree order (sorted keys), compared with the kernel state stored after the first transition of the next epoch (rtol 2e-3 plus the float32 cancellation error 1e-6 |m_i||m_j| of subtracting the mean)",
             "blackjax's integrator is trusted; only the alignment of the matrix with the flat coordinates is decided here",
         ],
-        run_cap_s=600, shrink_tests=12, shrink_s=200,
+        run_cap_s=900, shrink_tests=12, shrink_s=200,
     ),
     "C11": _m(
         "E", "exploration", (64, 4000), (600, 5400),
@@ -315,7 +315,7 @@ META = {
             "epoch restart: the stored mu = log(10 eps0) must match the averaged step size of the previous epoch (times sqrt(tr(old)/tr(new)) for HMC/NUTS after a slow epoch, the documented step-size rescaling of the mass-matrix tuner)",
             "the 1-ulp exp(log eps) round trip at epoch boundaries is not 'between transitions' and is not flagged",
         ],
-        run_cap_s=600, shrink_tests=25, shrink_s=200,
+        run_cap_s=900, shrink_tests=25, shrink_s=200,
     ),
     "C09": _m(
         "E", "exploration", (24, 600), (900, 5400),
